@@ -5,6 +5,7 @@ CONSTANTS
   NTags = 5
   SmallTags = 1
   KeyMode = "term_value"
+  DecodeMode = "stored"
   HashMode = "code"
   NearPairs = FALSE
   EqMode = "structural"
@@ -13,6 +14,7 @@ CONSTANTS
   WideProv = FALSE
 CONSTRAINT Export
 INVARIANT ImplEncoder
+INVARIANT ImplDecode
 INVARIANT ImplClassify
 INVARIANT ImplMulti
 INVARIANT ImplPred
